@@ -55,6 +55,41 @@ def main():
     k = next(k for k, l in enumerate(lines) if l["ev"] == "analyze" and l["m"]["valid"] and any(it["k"] == "def" for it in l["m"]["items"]))
     r3 = run(lines[:k] + lines[k + 1:], "dropped")
     print("dropped event rejected:", not r3["ok"])
-    good = ok["ok"] and not r1["ok"] and not r1b["ok"] and not r2["ok"] and not r3["ok"]
+    # ---- the repository's own test-suite, traced through the hook, against SuiteTrace.tla
+    import suitetrace as S
+    events, summ = S.run_suite("selftest")
+    slines, _ = S.project(events, "cpython")
+
+    def srun(ls, name):
+        p = os.path.join(d, "selftest-suite-%s.ndjson" % name)
+        with open(p, "w") as fh:
+            for l in ls:
+                fh.write(json.dumps({k: v for k, v in l.items() if k != "text"}) + "\n")
+        r = S.tlc_validate(p)
+        os.unlink(p)
+        return r
+    s_ok = srun(slines, "ok")
+    print("suite trace accepted:", s_ok["ok"], "(%d events of %d tests)" % (len(slines), summ["tests_passed"]))
+    i = next(k for k, l in enumerate(slines) if l["ev"] == "analyze" and l["judged"] and l["parsed"] and l["post"]["uses"])
+    bad = json.loads(json.dumps(slines))
+    bad[i]["post"]["ubf"] = bad[i]["post"]["ubf"][1:]
+    bad[i]["post"]["ubfkeys"] = bad[i]["post"]["ubfkeys"][1:]
+    s1 = srun(bad, "mirror")
+    print("suite trace with one reverse-index entry removed rejected:", not s1["ok"], "|", s1["invariant"])
+    bad = json.loads(json.dumps(slines))
+    i = next(k for k, l in enumerate(slines) if l["ev"] == "analyze" and l["judged"] and l["parsed"] and l["post"]["defs"])
+    bad[i]["post"]["defs"][0]["scope"] = "session" if bad[i]["post"]["defs"][0]["scope"] != "session" else "module"
+    s2 = srun(bad, "scope")
+    print("suite trace with one recorded scope changed rejected:", not s2["ok"])
+    # an unparsable re-analysis that loses the file's records
+    i = next((k for k, l in enumerate(slines) if l["ev"] == "analyze" and not l["parsed"] and l["post"]["defs"]), None)
+    s3 = {"ok": False}
+    if i is not None:
+        bad = json.loads(json.dumps(slines))
+        bad[i]["post"]["defs"], bad[i]["post"]["keys"], bad[i]["post"]["fdefs"] = [], [], []
+        s3 = srun(bad, "parsefail")
+        print("suite trace in which a parse failure clears the records rejected:", not s3["ok"])
+    good = ok["ok"] and not r1["ok"] and not r1b["ok"] and not r2["ok"] and not r3["ok"] \
+        and s_ok["ok"] and not s1["ok"] and not s2["ok"] and not s3["ok"]
     print("SELFTEST", "PASS" if good else "FAIL")
     return 0 if good else 2
